@@ -432,3 +432,11 @@ func verifLazyCutProbe(pos *Position, cheap int) {
 		VerifLazyWrong++
 	}
 }
+
+// New generator whose slot 0 holds a copy of gen's current top position (so that long games can be
+// followed without running into the fixed stack size, which is C18's subject, not C02's).
+func VerifRebase(gen *Generator) *Generator {
+	stack := make([]Position, plyBufferCapacity)
+	stack[0] = *gen.getTopPos()
+	return &Generator{posStack: stack, movStack: newMoveStack()}
+}
